@@ -340,10 +340,12 @@ where
         let request_hash = response.request_type().hash();
 
         // check whether we are (still) waiting on response to this request
-        let Some(_) = self.outstanding_requests.remove(&request_hash) else {
+        // NOTE: the request stays outstanding until a response to it has been accepted,
+        // so that an invalid response cannot cancel it (it is retried on timeout)
+        if !self.outstanding_requests.contains_key(&request_hash) {
             warn!("received repair response for unknown request {response:?}");
             return;
-        };
+        }
 
         match response {
             RepairResponse::Nack(req_type) => {
@@ -369,7 +371,8 @@ where
                     return;
                 }
 
-                // store slice Merkle root
+                // response accepted, store slice Merkle root
+                self.outstanding_requests.remove(&request_hash);
                 self.slice_roots
                     .insert((block_id.clone(), last_slice), root);
 
@@ -395,7 +398,8 @@ where
                     return;
                 }
 
-                // store slice Merkle root
+                // response accepted, store slice Merkle root
+                self.outstanding_requests.remove(&request_hash);
                 self.slice_roots.insert((block_id.clone(), slice), root);
 
                 // issue next requests
@@ -436,7 +440,8 @@ where
                     return;
                 };
 
-                // store shred
+                // response accepted, store shred
+                self.outstanding_requests.remove(&request_hash);
                 let res = self
                     .blockstore
                     .write()
